@@ -141,7 +141,7 @@ impl<'tcx> Exporter<'tcx> {
         let mut consts = Vec::new();
         for ld in tcx.hir_crate_items(()).definitions() {
             let d = ld.to_def_id();
-            if matches!(tcx.def_kind(d), DefKind::Const { .. }) {
+            if matches!(tcx.def_kind(d), DefKind::Const { .. } | DefKind::AssocConst { .. }) {
                 let env = ty::TypingEnv::fully_monomorphized();
                 if let Ok(v) = tcx.const_eval_poly(d) {
                     let t = tcx.type_of(d).instantiate_identity().skip_norm_wip();
@@ -150,6 +150,20 @@ impl<'tcx> Exporter<'tcx> {
                         o.push(("v", J::s(self.scalar_str(si, t))));
                     }
                     let _ = env;
+                    // aggregate constants (tables): their CTFE body, interpreted on demand by the engines
+                    if v.try_to_scalar_int().is_none() {
+                        let body = tcx.mir_for_ctfe(d);
+                        let mut bo = match self.body_json(d, body) {
+                            J::Obj(v) => v,
+                            _ => unreachable!(),
+                        };
+                        let mut proms = Vec::new();
+                        for pb in tcx.promoted_mir(d).iter() {
+                            proms.push(self.body_json(d, pb));
+                        }
+                        bo.push(("promoted".to_string(), J::Arr(proms)));
+                        o.push(("body", J::Obj(bo)));
+                    }
                     consts.push((self.path(d), J::obj(o)));
                 }
             }
@@ -497,7 +511,19 @@ impl<'tcx> Exporter<'tcx> {
                                 done = true;
                             }
                             mir::ConstValue::Slice { .. } | mir::ConstValue::Indirect { .. } => {
-                                if let Some(bytes) = val.try_get_slice_bytes_for_diagnostics(tcx) {
+                                // only texts and byte strings are exported by value; any other aggregate constant
+                                // (a table) stays symbolic and is evaluated from its CTFE body by the engines
+                                let is_u8_seq = |x: ty::Ty<'tcx>| match x.kind() {
+                                    TyKind::Slice(e) | TyKind::Array(e, _) => matches!(e.kind(), TyKind::Uint(ty::UintTy::U8)),
+                                    _ => false,
+                                };
+                                let byteish = match t.kind() {
+                                    TyKind::Ref(_, inner, _) => inner.is_str() || is_u8_seq(*inner),
+                                    _ => is_u8_seq(t),
+                                };
+                                if !byteish {
+                                    // fall through to "other"
+                                } else if let Some(bytes) = val.try_get_slice_bytes_for_diagnostics(tcx) {
                                     let is_str = matches!(t.kind(), TyKind::Ref(_, inner, _) if inner.is_str());
                                     if is_str {
                                         o.push(("kind", J::s("str")));
@@ -832,6 +858,19 @@ impl<'tcx> Exporter<'tcx> {
         ];
         if let Some(sp) = body.spread_arg {
             o.push(("spread_arg", J::Num(sp.as_usize() as i128)));
+        }
+        // names of the type parameters in the order of the generic arguments (parents first): lets the engines
+        // substitute the caller's type arguments when they interpret a generic body
+        if matches!(tcx.def_kind(d), DefKind::Fn | DefKind::AssocFn) {
+            let g = tcx.generics_of(d);
+            let mut names = Vec::new();
+            for i in 0..g.count() {
+                let p = g.param_at(i, tcx);
+                if matches!(p.kind, ty::GenericParamDefKind::Type { .. }) {
+                    names.push(J::s(p.name.to_string()));
+                }
+            }
+            o.push(("type_params", J::Arr(names)));
         }
         if matches!(tcx.def_kind(d), DefKind::AssocFn) {
             let parent = tcx.parent(d);
